@@ -210,7 +210,7 @@ class Lines(Part):
 
     def strategy(self, tier):
         rule = st.builds(lambda t, ch, al: {"k": "rule", "title": t, "characters": ch, "align": al}, st.one_of(st.just(""), GT.text_content(True), GT.title_content()),
-                         st.sampled_from(["─", "-", "=-", GC.WIDE[0], "━", "ab" + GC.WIDE[1], "*"]), st.sampled_from(["left", "center", "right"]))
+                         st.sampled_from(["─", "-", "=-", GC.WIDE[0], "━", "ab" + GC.WIDE[1], "*", "━━", "═─", "＝", "─" * 3]), st.sampled_from(["left", "center", "right"]))
         bar = st.builds(lambda size, b, e, w: {"k": "bar", "size": size, "begin": min(b, e), "end": max(b, e), "width": w}, st.integers(1, 100), st.integers(0, 100), st.integers(0, 100), st.one_of(st.none(), st.integers(1, 80)))
         pbar = st.builds(lambda total, c, w, p, at: {"k": "pbar", "total": total, "completed": c, "width": w, "pulse": p, "atime": at}, st.one_of(st.integers(0, 100), st.just(0)), st.integers(0, 120), st.one_of(st.none(), st.integers(1, 80)), st.booleans(),
                          st.one_of(st.just(1.5), st.integers(0, 200).map(lambda k: k / 16), st.floats(0, 1000, allow_nan=False)))
@@ -235,6 +235,27 @@ class Lines(Part):
             if w != W:
                 ctx.violation("rule", "C08/rule/width", "rule is %d cells wide; %s" % (w, desc))
                 return
+            # the rule characters fill the line: blanks only inside / around the title, plus at most one where a double-width character is cut at the edge
+            chars = "-" if (spec["env"] == "ascii" and not n["characters"].isascii()) else n["characters"]
+            slack = 1 if any(OC.cw(c) == 2 for c in chars) else 0
+            line = lines[0]
+            title = n["title"]
+            if " " not in chars:
+                if not title.strip():
+                    if line.count(" ") > slack + (2 * slack if title else 0) and not title:
+                        ctx.violation("rule", "C08/rule/not-filled", "an untitled rule contains %d blank cells; %s" % (line.count(" "), desc))
+                        return
+                elif title == title.strip() and "\n" not in title and "\t" not in title:
+                    lead = len(line) - len(line.lstrip(" "))
+                    trail = len(line) - len(line.rstrip(" "))
+                    if OC.width(title) <= W - 4 and title not in line:
+                        ctx.violation("rule", "C08/rule/title-missing", "the title fits but is not on the line; %s" % desc)
+                        return
+                    # a title that has to be shortened may itself be cut inside a double-width character (one more blank)
+                    tcut = 1 if (any(OC.cw(c) == 2 for c in title) and OC.width(title) > W - 4) else 0
+                    if lead > 1 + slack + tcut or trail > 1 + slack + tcut:
+                        ctx.violation("rule", "C08/rule/not-filled", "a titled rule starts with %d and ends with %d blank cells; %s" % (lead, trail, desc))
+                        return
             if any(OC.cw(c) == 2 for c in n["characters"]) or OC.width(n["title"]) > W:
                 ctx.nontrivial = True
         else:
